@@ -3,10 +3,11 @@ C19 — the lookup description language (opentype/gtab/builder) is a faithful, t
 Only property theorems, full statements (`…_full : Prop`) and non-vacuity examples live here;
 helper lemmas are in Proofs/DslLexer, Proofs/DslProc and Proofs/DslRoundtrip.
 The models mirror the code with the repairs of DESIGN §9 #22, #23, #29, #30, #41 applied
-(and the two printer defects found on the way: numeric ranges, ranges in GSUB4).
+and #42 applied (and the two printer defects found on the way: numeric ranges, ranges in GSUB4).
 -/
 import SfntV.Proofs.DslLexer
 import SfntV.Proofs.DslRoundtrip
+import SfntV.Proofs.DslTotal
 
 namespace SfntV.Props.C19
 open SfntV SfntV.Dsl
@@ -154,11 +155,9 @@ def subType : Subtable → Nat
   | .gsub3_1 .. => 3
   | .gsub4_1 .. => 4
 
-/-- one subtable per lookup (the `||` separator is not read back for GSUB 1–4: known finding) -/
+/-- one or more subtables, all of the lookup's type, separated by `||` in the notation -/
 def LookupOk (f : Font) (l : Lookup) : Bool :=
-  l.flags < 16 && match l.subtables with
-    | [s] => SubOk f s && subType s == l.typ
-    | _ => false
+  l.flags < 16 && l.subtables != [] && l.subtables.all fun s => SubOk f s && subType s == l.typ
 
 /-- FULL statement of the round trip for lookup type `t` (GSUB 1–4): for every font of the
 domain and every list of lookups of that type in the domain, parsing the description gives the
@@ -247,6 +246,21 @@ theorem C19_roundtrip_gsub4_partial :
     (∀ l ∈ univ4, rtOk fontU [l] = true) ∧ (∀ l ∈ univ4, rtOk fontN [l] = true) := by
   decide +kernel
 
+def multi : List Lookup :=
+  [ { typ := 1, flags := 0, subtables := [.gsub1_1 [1] 1, .gsub1_2 [2, 3] [1, 4], .gsub1_1 [0, 1, 2] 2] },
+    { typ := 2, flags := 3, subtables := [.gsub2_1 [1] [[2, 2]], .gsub2_1 [1, 4] [[3], [1, 2, 3]]] },
+    { typ := 3, flags := 8, subtables := [.gsub3_1 [2] [[]], .gsub3_1 [1, 2] [[4, 3], [2]]] },
+    { typ := 4, flags := 4, subtables := [.gsub4_1 [1] [[([2], 3), ([], 4)]], .gsub4_1 [1, 3] [[([], 2)], [([1, 1], 1)]]] } ]
+
+example : multi.all (fun l => LookupOk fontU l && LookupOk fontN l) = true := by decide +kernel
+
+/-- Several subtables per lookup, written with the `||` separator, round-trip for each of
+GSUB 1–4 (DESIGN §9 #42, after the repair), alone and all four in one description. -/
+theorem C19_roundtrip_subtables_partial :
+    (∀ l ∈ multi, rtOk fontU [l] = true ∧ rtOk fontN [l] = true) ∧ rtOk fontU multi = true ∧
+      rtOk fontN multi = true := by
+  decide +kernel
+
 /-- Several lookups in one description (every pair of a small cross-section). -/
 theorem C19_roundtrip_lists_partial :
     ∀ a ∈ cross, ∀ b ∈ cross, rtOk fontN [a, b] = true := by
@@ -258,19 +272,38 @@ theorem C19_roundtrip_lists_partial :
 example : explainGsub fontN [{ typ := 3, flags := 2, subtables := [.gsub3_1 [1] [[4, 1]]] }]
     = [71, 83, 85, 66, 51, 58, 32, 45, 98, 97, 115, 101, 32, 34, 67, 34, 32, 45, 62, 32, 91, 34, 92, 92, 67, 34, 93, 10] := by
   decide +kernel
-/-- two subtables in a GSUB1 lookup do not re-parse (`||`, known finding) -/
-example : rtOk fontN [{ typ := 1, flags := 0, subtables := [.gsub1_1 [1] 1, .gsub1_1 [3] 1] }] = false := by
+/-- the checker can fail: a lookup outside the domain (a flag bit the language has no word for)
+does not round-trip -/
+example : rtOk fontN [{ typ := 1, flags := 16, subtables := [.gsub1_1 [1] 1] }] = false := by
   decide +kernel
 
 /-! ## totality of the parser -/
 
-/-- FULL statement of totality: for every font and every text the parser model returns lookups
-or an error whose line number is ≥ 1 (the model reports running out of loop fuel as an error
-of line 0, so the statement includes that no loop runs away). -/
+/-- FULL statement of totality: for every font and every text the parser returns lookups or an
+error whose line number is ≥ 1 (the model reports running out of loop fuel as an error of
+line 0, so the statement includes that no loop runs away). -/
 def C19_total_full : Prop :=
   ∀ (f : Font) (bs : List Nat),
     match parseBytes f bs with
     | .ok _ => True
-    | .error e => 1 ≤ e.line ∨ e.cls = unmodelled
+    | .error e => 1 ≤ e.line
+
+/-- The proved part: for every font and every text (any bytes), the model of `Parse` — lexer,
+item supply with push-back, `fatal`, lookup flags, glyph lists with names, numbers, strings and
+ranges, GSUB 1–4 with several subtables — returns lookups, or an error whose line number is
+≥ 1, or stops at a lookup form the model does not cover (GSUB 5/6, GPOS 1–4: marker
+`unmodelled`).  No loop of the model runs out of fuel (that would be an error of line 0 with
+another marker). -/
+theorem C19_total_partial (f : Font) (bs : List Nat) :
+    match parseBytes f bs with
+    | .ok _ => True
+    | .error e => 1 ≤ e.line ∨ e.cls = unmodelled := by
+  obtain ⟨pre, t, e, ht, _, hl, _⟩ := lexFrom_ok (decodeUtf8 bs) (.start []) 1
+  exact parseToks_total f _ pre t e ht hl
+
+example : errFuel ≠ unmodelled := by decide
+/-- an erroring text: the error carries line 2 -/
+example : parseBytes fontN [71, 83, 85, 66, 49, 58, 32, 65, 32, 45, 62, 32, 66, 10, 71, 83, 85, 66, 50, 58, 32, 65] =
+    .error { line := 2, cls := "expected-token" } := by decide +kernel
 
 end SfntV.Props.C19
